@@ -285,3 +285,38 @@ func NewStoreForVerif() Store {
 		applied:        map[configapi.ConfigurationID]_map.Map[string, *configapi.PathValue]{VConfigID: &vPVMap{cells: &VApplied}},
 	}
 }
+
+// VerifC15Configuration: two writers of the same configuration version: the second gets a conflict and the record keeps the
+// first writer's status; record versions grow.
+func VerifC15Configuration() {
+	ctx := context.Background()
+	s := NewStoreForVerif()
+	VConfig = &configapi.Configuration{ID: VConfigID, TargetID: "t1"}
+	VConfig.Revision = 1
+	v0 := verifrt.NondetUint64("version")
+	verifrt.Assume(v0 >= 1 && v0 < 1000)
+	VConfigVer = v0
+	a, errA := s.Get(ctx, VConfigID)
+	b, errB := s.Get(ctx, VConfigID)
+	verifrt.Assert(errA == nil && errB == nil && a != nil && b != nil && a.Version == v0 && b.Version == v0, "readers-see-the-stored-version")
+	if errA != nil || errB != nil || a == nil || b == nil {
+		return
+	}
+	a.Status.Committed.Index = configapi.Index(verifrt.NondetUint64("committed.a"))
+	b.Status.Committed.Index = configapi.Index(verifrt.NondetUint64("committed.b"))
+	var e1, e2 error
+	if verifrt.Fork("op1", 2) == 0 {
+		e1 = s.Update(ctx, a)
+	} else {
+		e1 = s.UpdateStatus(ctx, a)
+	}
+	if verifrt.Fork("op2", 2) == 0 {
+		e2 = s.Update(ctx, b)
+	} else {
+		e2 = s.UpdateStatus(ctx, b)
+	}
+	verifrt.Cover("two-writers")
+	verifrt.Assert(e1 == nil && a.Version > v0, "first-writer-succeeds-and-the-version-grows")
+	verifrt.Assert(e2 != nil, "second-writer-of-the-same-version-is-refused")
+	verifrt.Assert(VConfig != nil && VConfig.Status.Committed.Index == a.Status.Committed.Index && VConfigVer == v0+1, "the-lost-update-left-no-trace-in-the-record")
+}
